@@ -112,7 +112,7 @@ theorem KeepsB.openRound (e : EP) (r : OpenReq) : KeepsB e (openRound e r).1 := 
         KeepsB.insertPending e fid _ (drawId_spec _ _ _ _ _ _ _ hd).1
       simp only
       split
-      · exact g.trans ((by kb))
+      · exact (by kb)
       · exact (KeepsB.enqFrame _ _).after (g.trans ((by kb)))
 
 theorem KeepsB.openRejected (e : EP) (req : Nat) (final : Bool) : KeepsB e (openRejected e req final).1 := by
